@@ -1,0 +1,13 @@
+//go:build verif
+
+package redis
+
+// VerifPoint, when set, is called at named schedule points of the server's lifecycle code.
+// It only exists in builds with the "verif" tag (verification harnesses); see verif_off.go.
+var VerifPoint func(name string)
+
+func verifPoint(name string) {
+	if VerifPoint != nil {
+		VerifPoint(name)
+	}
+}
